@@ -62,6 +62,17 @@ claim("C10", "model_checking",
       "TLC over outcomes recorded from the real verify_code; inputs are TLC-generated behaviours of "
       "MethodGen.tla")
 
+claim("C14", "model_checking",
+      "the outcome table of the real unify over the 9-kind universe is recorded and TLC checks idempotence, "
+      "commutativity, associativity (all 729 triples) and confluence of the table-update rule on it; the "
+      "real SymbolKindFinder is run on every presentation (statement order, phase order, hash seeds) of "
+      "every subset of a statement catalogue and TLC requires all outcomes of one program to coincide",
+      "trusted: kind universe chosen by the harness; statement catalogue; hash seeds sample set orders; "
+      "the update rule in Kinds.tla is an as-coded model (its drift from the code would show in the order "
+      "part, which runs the real code)",
+      "TLA+ spec of the kind laws (Kinds.tla) model-checked by TLC on the recorded unify table; "
+      "self-composition spec (SelfComp.tla) over recorded runs of the real kind inference")
+
 NOT_YET = "check not built yet (work in progress, see DESIGN.md section 11)"
 NOT_APPLICABLE = {}
 
